@@ -20,7 +20,7 @@ RULE = ("(read-only) for families x configuration classes (tags x rated power x 
 ASSUMPTIONS = ["frames are classified by an independent decoder inside the simulated inverter",
                "'modbus-N' ids are documented raw-register access and are not 'unknown' ids"]
 MUST = ["concurrent_writer_reader", "readonly_calls", "readonly_frames_seen", "after_valid_setters", "invalid_export_limit", "invalid_dod", "invalid_eco_power",
-        "invalid_eco_soc", "unknown_setting_ids", "discover_readonly", "valueerror_seen"]
+        "invalid_eco_soc", "unknown_setting_ids", "sensor_id_as_setting_id", "monitoring_over_refused_connections", "discover_readonly", "valueerror_seen"]
 EXHAUSTIVE = {"quick": False, "thorough": False}
 
 
@@ -74,7 +74,7 @@ def readonly_case(cfg, port, seed, part):
             if w:
                 bad.append(("discover", w[:3]))
         else:
-            inv = models.family_cls(g, fam)("inv0", port, 0, 1, 0)
+            inv = models.family_cls(g, fam)("inv0", port, 0, 1, rnd.choice((0, 1, 2)) if port == 502 else 0)
             await inv.read_device_info()
         # phase 1: valid setters (so that caches / shared state of the object are primed by writes)
         setters = [("set_grid_export_limit", 1), ("write_setting", "grid_export_limit", 1)]
@@ -91,6 +91,12 @@ def readonly_case(cfg, port, seed, part):
                 pass
         part.count("after_valid_setters")
         # phase 2: monitoring calls only
+        if port == 502 and rnd.random() < 0.6:
+            # ... over a flaky network: every request needs a new connection and some connection attempts are refused
+            inv.set_keep_alive(False)
+            await inv._protocol.close()
+            loop.connect_scripts["inv0"] = [rnd.choice(("ok", "refused", "ok", "unreach")) for _ in range(2000)]
+            part.count("monitoring_over_refused_connections")
         m_start = marks(sim)
         await guarded("read_device_info", inv.read_device_info(), marks(sim))
         await guarded("read_runtime_data", inv.read_runtime_data(), marks(sim))
@@ -183,6 +189,13 @@ def invalid_case(fam, port, variant, seed, part, wide):
                 continue
             await probe(f"write_setting({sid!r}, 1)", "unknown_setting_ids", lambda: inv.write_setting(sid, 1), True)
             await probe(f"read_setting({sid!r})", "unknown_setting_ids", lambda: inv.read_setting(sid), True)
+        # ids of runtime sensors are not setting ids
+        known = {s.id_ for s in inv.settings()}
+        sens = sorted({s.id_ for s in inv.sensors()} - known - ({"time"} if fam == "ES" else set()))
+        rnd.shuffle(sens)
+        for sid in sens[:(40 if wide else 15)]:
+            await probe(f"write_setting({sid!r}, 1)", "sensor_id_as_setting_id", lambda: inv.write_setting(sid, 1), True)
+            await probe(f"read_setting({sid!r})", "sensor_id_as_setting_id", lambda: inv.read_setting(sid), True)
 
     run = engine.run_custom({("inv0", port): sim}, flow, vtime_cap=20000, tx_cap=50000)
     if run.stop or run.error is not None:
